@@ -68,3 +68,41 @@ def overrides(ctx, rule, U, trait, allowed, label):
         if extra:
             res[tk] = (extra, imp)
     return res
+
+
+def unit_identity(ctx, config, w):
+    """`unit == unit` is identity: PartialEq of every unit enum is the derive
+    for a field-less enum, i.e. equality of discriminants (all value-flow rules
+    treat unit equality as identity of the variant)."""
+    from .model import peel, ty_key
+    n = 0
+    for q in w.qtypes:
+        up = q.unit_path
+        crate = q.crate if up.startswith(q.crate.name + "::") else next((c for c in w.crates if up.startswith(c.name + "::")), q.crate)
+        imps = [i for i in crate.impls if i.get("trait") == "core::cmp::PartialEq" and ty_key(i["self_ty"]) == up]
+        inst = "%s/%s" % (config, up)
+        if len(imps) != 1:
+            ctx.fail("unit-identity", inst, "expected exactly one impl PartialEq for the unit enum, found %d" % len(imps), q.span)
+            continue
+        imp = imps[0]
+        b = w.U.item_body(imp, "eq")
+        ok = False
+        why = "no body"
+        if b is not None:
+            ev = T.Evaluator(w.U, keep_tags=False)
+            try:
+                outs = ev.summarize(b)
+                t = T.canon(outs[0][2]) if len(outs) == 1 and not outs[0][0] else None
+                disc = lambda x: ("app", "core::intrinsics::discriminant_value", None, (x,))
+                want = T.canon(("==", disc(S.P(0, "self")), disc(S.P(1, "other"))))
+                adt = crate.adt_by_path.get(up)
+                fieldless = adt is not None and all(not v["fields"] for v in adt["variants"])
+                single = adt is not None and len(adt["variants"]) == 1 and t == ("bool", True)
+                ok = (t == want or single) and fieldless and (imp.get("expn") or "").startswith("Macro(Derive")
+                why = "PartialEq::eq of %s is %s (provenance %s)" % (up, T.show(t) if t else outs, imp.get("expn"))
+            except T.Unsupported as x:
+                why = "unsupported construct: " + x.what
+        items = {i["name"] for i in imp["items"]}
+        ctx.ob("unit-identity", inst, ok and items == {"eq"}, why + "; expected the derived discriminant equality and no `ne` override", imp["span"], nontrivial=False)
+        n += 1
+    return n
